@@ -1,4 +1,4 @@
-// vf-driver: kind=cxx extra=mpi_ops_base.cpp,mpi_ops_topo.cpp,mpi_ops_group.cpp,mpi_ops_type.cpp,mpi_ops_op.cpp
+// vf-driver: kind=cxx extra=mpi_ops_base.cpp,mpi_ops_topo.cpp,mpi_ops_group.cpp,mpi_ops_type.cpp,mpi_ops_op.cpp,mpi_ops_coll.cpp
 /* mpi_interp: generic MPI scenario interpreter running on SMPI *inside* the driver process (one fork per case).
  *
  * usage: mpi_interp <case.json | -> | --serve <errfile>    (fork-server protocol: drivers/forkserver.hpp)
